@@ -440,7 +440,7 @@ def generatePartial (d : Document) (o : Opts) (versionC : Bool) : R PartialOut :
 /-! ### what the writer remembers besides the text -/
 
 def Line.linkerSym? : Line → Option Str
-  | .assign s _ _ _ true => some s
+  | .assign s _ false false true => some s
   | _ => none
 
 def Line.inputPath? : Line → Option Str
